@@ -161,6 +161,9 @@ class Walker:
             K = func.cls
         st.stack.append(Frame(func, K, self_expr if func.kind != "classmethod" else ("cls", K.name if K else "?")))
         self._bind_params(func, st, args or {}, symbolic=True)
+        for k, v in (args or {}).items():
+            if k not in st.env:
+                st.env[k] = v  # free variables of a nested function (closure bindings)
         out = self.block(func.body(), [st])
         for s in out:
             if s.exit is None:
@@ -665,8 +668,7 @@ class Walker:
     def assign(self, t, v, st: State, node, aug=None, addend=None) -> List[State]:
         if isinstance(t, ast.Name):
             st.env[t.id] = v
-            if st.loops:
-                self.emit(st, "bind", node, name=t.id, value=v)
+            self.emit(st, "bind", node, name=t.id, value=v)
             return [st]
         if isinstance(t, (ast.Tuple, ast.List)):
             cur = [st]
